@@ -128,7 +128,15 @@ def run_task(t):
             sc.int_eq('numerical has one entry per decision variable', 'R.nn', n)
             for i in range(n):
                 sc.uf_eq('analytical[%d] == gradient of a separate evaluate(x)' % i, 'R.an.%d' % i, 'E.g.%d' % i)
-                sc.uf_eq('numerical[%d] == (cost(x + eps e_%d) - cost(x - eps e_%d)) / (2 eps) from separate evaluations' % (i, i, i), 'R.num.%d' % i, 'NUM.%d' % i)
+                if g.outs['R.num.%d' % i] == g.outs['NUM.%d' % i] or sc.uf.same(g.outs['R.num.%d' % i], g.outs['NUM.%d' % i]):
+                    sc.uf_eq('numerical[%d] == (cost(x + eps e_%d) - cost(x - eps e_%d)) / (2 eps) from separate evaluations' % (i, i, i), 'R.num.%d' % i, 'NUM.%d' % i)
+                else:
+                    # not the same operations: accept any formula that is equal in exact arithmetic (the two costs cut to free variables)
+                    E2 = R.Enc(g, cuts={g.outs['EP%d.cost' % i]: 'CP', g.outs['EM%d.cost' % i]: 'CM'})
+                    sc2 = O.Scenario(ID, sc.name + ' [numerical %d]' % i, tu, s, timeout=t['timeout'], dag=g, enc_kwargs={'cuts': {g.outs['EP%d.cost' % i]: 'CP', g.outs['EM%d.cost' % i]: 'CM'}}, shadow_override=so)
+                    sc2.assume.append(sc2.enc.var('eps') > 0) if explicit else None
+                    sc2.real_eq('numerical[%d] == (cost(x + eps e_%d) - cost(x - eps e_%d)) / (2 eps) in exact arithmetic (costs cut)' % (i, i, i), 'R.num.%d' % i, sc2.enc.out('NUM.%d' % i), with_path=False)
+                    out.append(sc2)
             # norms (Real, with the two gradient vectors cut to free variables)
             an = [E.out('R.an.%d' % i) for i in range(n)]
             nu = [E.out('R.num.%d' % i) for i in range(n)]
